@@ -42,6 +42,8 @@ def obligations(tier):
     for (n, k, c, t) in ([(3, 2, 1, 2), (3, 2, 2, 4), (3, 3, 1, 3)] if not th else [(3, 2, 1, 2), (3, 2, 2, 4), (4, 3, 1, 3), (4, 2, 2, 1), (5, 2, 1, 6)]):
         obs.append(Ob(id=f'values/labels/{n}x{k}x{c}/t{t}', harness='C13/values.c', tus=T, defs={'HP_KERNEL': 3, 'HP_N': n, 'HP_N2': k, 'HP_C': c, 'HP_T': t},
                       engine='real', unwind=10, timeout=to, clause='multithreaded = single-threaded result', stubs=R, real={'nomissing': True}))
+    # (a concurrent run of the MT kernels with __CPROVER_ASYNC workers was tried: CBMC 6.11 refuses it - 'pointer handling for concurrency is
+    #  unsound' - because the worker arguments are pointers shared between threads; disjointness is decided through the slice obligations above)
     for mn in ([12, 40] if not th else [40, 64]):
         obs.append(Ob(id=f'indexmap/n{mn}', harness='C13/indexmap.c', tus=T, defs={'HP_MAXN': mn}, engine='bits', unwind=4, timeout=300 if not th else 1800, clause='index map is a bijection'))
     return obs
